@@ -240,6 +240,41 @@ _c("C11",
    "Coq proof (equivalence-relation and hash-coherence theorems by strong induction over values) + model/implementation "
    "correspondence in vm_compute")
 
+_c("C04",
+   "Coq theorems (Props/C04.v, closed under the global context) over a capability model (Struct/Handles.v): the world is the internal "
+   "object tree of the instance plus the handles the client holds (Detached copy | Guarded wrapper | Live alias); what every "
+   "introspected accessor hands out and what every introspected mutator of list/dict/deque/set does is COMPUTED from tables "
+   "regenerated on every run (override shapes of mutators and accessors, the four immutable-type tuples and their deepcopy flags, "
+   "structural flags: Gen/Tables.v, Gen/TablesC04.v). If the tables are guard-shaped, then for EVERY finite sequence of client "
+   "operations (setattr/delattr/delitem/read/accessor/mutator/constructor-argument mutation/unpickle) the abstract state never changes "
+   "and the client never obtains a Live handle (C04_invariant, C04_invariant_tables: induction over the op list with an invariant); "
+   "every unguarded entry or unsafe flag has a constructed state-changing run (C04_witness_*); constructor arguments are detached "
+   "under the deep-copy shape of __setattr__ (C04_ctor_args); a class statement with an ImmutableStructure/FinalStructure/"
+   "ImmutableField base raises for all hierarchies (C04_no_subclass); the full statement is refuted on today's tables. The model's "
+   "handle kinds and effects are compared with typedpy inside Coq on every immutable class shape (quick: nesting <= 1 plus a sample "
+   "at 2-3; thorough: all 2038 shapes exhaustively) and the property is evaluated directly by observable snapshots.",
+   "Trusted: Coq kernel + vm_compute; Handles.v hand-written (one field per class, two items per container); table recognisers in "
+   "harness/gen.py and harness/genmods/c04tables.py (fail closed); two facts read off the running library rather than the AST "
+   "(nested wrapper binding, unpickle keeps _instantiated); copy/deepcopy/pickle of handles probed by the harness only.",
+   "Coq proof (capability invariant by induction over operation sequences, parametric in generated accessor/mutator tables) + "
+   "model/implementation correspondence in vm_compute")
+_c("C08",
+   "PARTIAL. Coq theorems (Props/C08.v, closed under the global context) over a model of the draft-4 fragment (Schema/Draft4.v: syntax, "
+   "fuelled semantics valid4, well-formedness wf4) and of structure_to_schema's per-field mappers with the dialect translation "
+   "(Schema/ToSchema.v): for every field declaration free of the characterised defects the exported schema is well formed and its refs "
+   "resolve (C08_wf, field_ind' over all constructors), and for every declaration of the completeness fragment (numbers with bounds/"
+   "multiplesOf/signs, strings, booleans, enum classes, sized arrays, string-keyed maps, AnyOf/Optional over scalars, any nesting) the "
+   "serialization of every value the documented rules accept validates against the export (C08_complete, C08_complete_vset: "
+   "compiler-correctness style structural induction; only oracle assumption: re.match implies re.search); the unrestricted "
+   "statements are Definitions with refutation witnesses. The class level (object form, renames, definitions closure), Set/Tuple/"
+   "positional arrays/uniqueItems/AllOf/OneOf/Not/class references and the exactness clause are decided by the differential: model "
+   "to_schema vs real structure_to_schema, model valid4 and wf vs the independent jsonschema Draft4Validator (python3-vt), real "
+   "Serializer output validated against the real export, boundary documents on the exact sub-fragment vs the Deserializer.",
+   "Trusted: Coq kernel + vm_compute; Draft4.v/ToSchema.v hand-written, validated against jsonschema 4.x; harness/c08_vt_worker.py; "
+   "valid4 is fuelled (theorems carry fdepth f <= n).",
+   "Coq proof (schema completeness by structural induction over field declarations against a formal draft-4 semantics) + "
+   "model/implementation and model/independent-validator correspondence in vm_compute")
+
 PENDING = {}
 
 def main():
